@@ -4,6 +4,9 @@ import (
 	"encoding/json"
 	"fmt"
 	"math/rand"
+	"os"
+	"os/exec"
+	"path/filepath"
 	"sort"
 	"strings"
 	"time"
@@ -351,6 +354,7 @@ func c04(c *ev.Ctx) {
 			}
 		}
 	})
+	c04HostileInChild(c)
 	// a slice / map field is handed out by reference from the per-run field table: no
 	// built-in applied to it may change what the field shows afterwards
 	c16BuiltinsKeepArgument(c, "Tags", func(lit string) (string, map[string]interface{}) {
@@ -520,4 +524,58 @@ func c04Dot2(v model.Value, a, b string) string {
 	}
 	x, _ := v.HashGet(model.Str(a))
 	return c04Dot(x, b)
+}
+
+// c04HostileInChild: objects with fields the engine cannot represent (cyclic maps and
+// slices, cyclic members inside slices, functions, channels, typed nils ...) are read by
+// field-touching scripts in a child process: every call gives a value or an error - a
+// crash of the child (fatal stack overflow cannot be recovered) is a violation.
+func c04HostileInChild(c *ev.Ctx) {
+	if !c.Want("hostile-objects") {
+		return
+	}
+	var cases []c08Case
+	scripts := c08ObjectScripts([]string{"F0", "F1", "A", "M", "Items"})
+	for idx := range gen.HostileValues() {
+		for _, sc := range scripts {
+			cases = append(cases, c08Case{ID: fmt.Sprintf("hostile/%d/%d", idx, len(cases)), Kind: "hostile", ObjIdx: idx, Script: sc, NoOpt: len(cases)%2 == 0})
+		}
+	}
+	work := filepath.Join(ev.Root, "work", fmt.Sprintf("c04-%d", os.Getpid()))
+	os.MkdirAll(work, 0o755)
+	defer os.RemoveAll(work)
+	self, _ := os.Executable()
+	bf := filepath.Join(work, "batch.json")
+	data, _ := json.Marshal(cases)
+	os.WriteFile(bf, data, 0o644)
+	start := 0
+	for attempt := 0; start < len(cases) && attempt < 30; attempt++ {
+		lf := filepath.Join(work, fmt.Sprintf("log-%d.txt", attempt))
+		ef := filepath.Join(work, fmt.Sprintf("err-%d.txt", attempt))
+		cmd := exec.Command("timeout", "-s", "QUIT", "600", "bash", "-c", fmt.Sprintf("ulimit -v 8000000; exec %q worker c08 %q %q %d >/dev/null 2>%q", self, bf, lf, start, ef))
+		cmd.Run()
+		done, last, results := c08ParseLog(lf)
+		for idx, res := range results {
+			c.Case("hostile"+cases[idx].ID, true)
+			if !strings.HasPrefix(res, "ok") {
+				c.Violation(cases[idx].ID, "unrepresentable field: "+c08Class(res), map[string]interface{}{"summary": fmt.Sprintf("%s\n  object #%d of the hostile list, script: %s", res, cases[idx].ObjIdx, cases[idx].Script), "case": cases[idx]})
+			}
+		}
+		if done {
+			break
+		}
+		if last < 0 {
+			c.Inconclusive("hostile-object worker produced no log")
+			break
+		}
+		eb, _ := os.ReadFile(ef)
+		first := string(eb)
+		if i := strings.Index(first, "\n\n"); i > 0 {
+			first = first[:i]
+		}
+		c.Violation(cases[last].ID, "process died on an unrepresentable field: "+clip(strings.SplitN(first, "\n", 2)[0], 60), map[string]interface{}{
+			"summary": fmt.Sprintf("the process died while a script read an object with a field the engine cannot represent: %s\n  object #%d of the hostile list, script: %s", clip(first, 400), cases[last].ObjIdx, cases[last].Script), "case": cases[last]})
+		start = last + 1
+	}
+	c.Count("hostile_object_cases", len(cases))
 }
